@@ -98,8 +98,11 @@ def run_deductive(spec, res, tier):
                 res.errors.append(f'contract out of date: {e}')
             except Exception:
                 res.errors.append(f'engine crash on {q}: {traceback.format_exc()[-1500:]}')
-        for t in sorted(eng.trusted_used):
-            pass
+        if eng.lemmas and targets is None:
+            try:
+                obls += eng.generate_lemmas(modname, eng.lemmas)
+            except OutOfSubset as e:
+                res.errors.append(f'lemmas of {modname}: {e}')
         for l in sorted(eng.libs_used):
             res.assumptions.add(l)
         if not obls:
